@@ -35,8 +35,13 @@ type KVEvent struct {
 // RecKV records every call made to the wrapped KVProvider.
 type RecKV struct {
 	chord.KVProvider
-	mu  sync.Mutex
-	log []KVEvent
+	// EmptyNonNil makes Get answer an absent key with a zero-length, non-nil
+	// slice instead of nil. Both mean "absent" under the KV contract (callers
+	// test len(value) == 0); stores that copy values or keep empty blobs answer
+	// this way.
+	EmptyNonNil bool
+	mu          sync.Mutex
+	log         []KVEvent
 }
 
 func NewRecKV(inner chord.KVProvider) *RecKV { return &RecKV{KVProvider: inner} }
@@ -81,6 +86,9 @@ func (k *RecKV) Put(ctx context.Context, key, value []byte) error {
 func (k *RecKV) Get(ctx context.Context, key []byte) ([]byte, error) {
 	v, err := k.KVProvider.Get(ctx, key)
 	k.rec("Get", string(key), "", false, err)
+	if k.EmptyNonNil && err == nil && len(v) == 0 {
+		v = []byte{}
+	}
 	return v, err
 }
 func (k *RecKV) Delete(ctx context.Context, key []byte) error {
